@@ -4,6 +4,7 @@ pub mod c04;
 pub mod c07;
 pub mod c08;
 pub mod c09;
+pub mod c11;
 pub mod lincheck;
 pub mod solvers;
 pub mod c05;
@@ -17,6 +18,7 @@ pub fn dispatch(id: &str, args: &RunArgs) -> i32 {
         "C07" => run(&c07::C07, args),
         "C08" => run(&c08::C08, args),
         "C09" => run(&c09::C09, args),
+        "C11" => run(&c11::C11, args),
         "C04" => run(&c04::C04, args),
         "C05" => run(&c05::C05, args),
         _ => {
